@@ -9,7 +9,7 @@ use crate::Tier;
 use verif_rt::core::ExecResult;
 use verif_rt::explore::{Finding, Scenario};
 
-pub const ROLES: [&str; 15] = [
+pub const ROLES: [&str; 16] = [
     "dispatch2",
     "sub+unsub",
     "selector+unsub",
@@ -25,6 +25,7 @@ pub const ROLES: [&str; 15] = [
     "addreducer+dispatch",
     "chanlatest+unsub",
     "dispatch-effect-action",
+    "two-iters",
 ];
 
 /// ops of role `role` placed in thread slot `slot` (ids are made unique per slot)
@@ -45,6 +46,8 @@ pub fn role_ops(role: usize, slot: u32) -> Vec<Op> {
         11 => vec![Op::Close],
         12 => vec![Op::AddReducer(1 + slot), Op::Dispatch(Act::new(100 * (slot + 1) + 50))],
         14 => vec![Op::Dispatch(Act::new(100 * (slot + 1) + 60).eff(0, EFF_ACTION)), Op::Dispatch(Act::new(100 * (slot + 1) + 61))],
+        // holds one iterator while creating and dropping another, then drains the first
+        15 => vec![Op::IterOpen(b + 8), Op::IterOpen(b + 9), Op::IterClose(b + 9), Op::IterNext(b + 8, 99), Op::IterClose(b + 8)],
         13 => vec![Op::Subscribed { id: b + 7, cap: 1, pol: Pol::Latest, gated: false, reads: true }, Op::Unsub(b + 7)],
         _ => unreachable!(),
     }
@@ -104,7 +107,7 @@ pub fn scenarios(tier: Tier) -> Vec<Scenario> {
                 if ms.contains(&14) {
                     continue; // covered in pairs
                 }
-                let heavy = ms.iter().filter(|r| matches!(**r, 3 | 4 | 6 | 7 | 8 | 10 | 13)).count();
+                let heavy = ms.iter().filter(|r| matches!(**r, 3 | 4 | 6 | 7 | 8 | 10 | 13 | 15)).count();
                 add(&ms, 1, if heavy >= 2 { 1 } else { 2 });
             }
             for ms in multisets(ROLES.len(), 4) {
